@@ -7,7 +7,7 @@ use crate::scriptrng::Ans;
 use serde_json::json;
 
 fn fact(n: usize) -> usize {
-    (1..=n).product::<usize>().max(1)
+    (1..=n).fold(1usize, |a, b| a.saturating_mul(b)).max(1)
 }
 
 pub fn alpha_for(ticks: &[u32], rich: bool) -> EAlpha {
@@ -191,6 +191,27 @@ pub fn c11(tier: &str) -> i32 {
         Act::Step(vec![Ans::Frac(2, 4), Ans::Frac(0, 3), Ans::Frac(1, 2)]),
     ];
     absorb_env(&mut out, &c, 1, 3, run_env::<1, 3>(&c), "env", false);
+    // a deep asymmetric ladder populating every published level, then the usual exploration on top
+    for l in [10usize, 24, 5] {
+        let mut c = ecfg(&format!("Env<{}>: from a deep 12-level ladder", l), false, &[1], 100, 2, 2, 0, &cl);
+        c.alpha.prices = vec![vec![30, 31]];
+        c.alpha.market_vols = vec![3, 40];
+        let mut base = Vec::new();
+        for i in 0..12u32 {
+            for k in 0..(i % 3 + 1) {
+                base.push(Act::Submit(Instr::New { a: 0, bid: true, vol: i + 1 + k, price: Some(29 - i) }));
+            }
+            for k in 0..((i + 1) % 3 + 1) {
+                base.push(Act::Submit(Instr::New { a: 0, bid: false, vol: 2 * i + 2 + k, price: Some(32 + i) }));
+            }
+        }
+        base.push(Act::Step(vec![]));
+        c.base = base;
+        c.alpha.cancel = false;
+        c.alpha.modify = false;
+        let r = env_levels!(l, run_env, &c);
+        absorb_env(&mut out, &c, 1, l, r, "env", false);
+    }
     for l in 1..=24usize {
         let mut c = ecfg(&format!("Env<{}>: level sweep", l), false, &[1], 100, 3, 2, 0, &cl);
         c.alpha.cancel = false;
